@@ -307,7 +307,10 @@ def run(ctx):
 
 
 # sensitivity pack (thorough tier): each seeded edit must be reported by the named rule instance
-MUTANTS = [{'name': 'mints-premine-swapped-in-store', 'file': 'src/index/entry.rs', 'old': '      self.mints,\n      self.number,\n      self.premine,', 'new': '      self.premine,\n      self.number,\n      self.mints,', 'expect': ('R35.1', 'RuneEntry', 'slot 4')},
+MUTANTS = [
+  {'name': 'seeded-C35-a', 'patch': 'C35-a/patch.diff', 'expect': ('R35.2', 'Entry>::load', 'masks the base')},
+  {'name': 'seeded-C35-b', 'patch': 'C35-b/patch.diff', 'expect': ('R35.5', 'UtxoEntryBuf::merged', 'index_addresses = true')},
+{'name': 'mints-premine-swapped-in-store', 'file': 'src/index/entry.rs', 'old': '      self.mints,\n      self.number,\n      self.premine,', 'new': '      self.premine,\n      self.number,\n      self.mints,', 'expect': ('R35.1', 'RuneEntry', 'slot 4')},
            {'name': 'txid-halves-swapped', 'file': 'src/index/entry.rs', 'old': 'let little_end = u128::from_le_bytes(txid_entry[..16].try_into().unwrap());\n    let big_end = u128::from_le_bytes(txid_entry[16..].try_into().unwrap());', 'new': 'let little_end = u128::from_le_bytes(txid_entry[16..].try_into().unwrap());\n    let big_end = u128::from_le_bytes(txid_entry[..16].try_into().unwrap());', 'expect': ('R35.1', 'InscriptionId', 'slot 0 = txid bytes')}]
 
 
